@@ -153,6 +153,38 @@ def r2(ctx, F, rule, sfx):
         a = repr(I.frozen(I.get_field(sd, f)))
         c = repr(I.frozen(I.get_field(ri.ret, f)))
         ctx.check(rule, 'stored-%s-agrees%s' % (f, sfx), a == c, 'direct %s | integrator %s' % (a[:60], c[:60]), 'equal', where(ri.body), key_extra='stored:' + f)
+    # the type-state transitions of the integrator (with_faces and any sibling that rebuilds the struct) carry the configuration over field by field:
+    # a conversion after `with_faces()` must see the same box
+    for tb in [x for x in F.bodies if x['kind'] != 'Closure' and strip_generics(x['path']).startswith('voronoi::VoronoiIntegrator::') and x.get('exported')
+               and strip_generics(x['path']).rsplit('::', 1)[-1] in ('with_faces', 'discard_faces', 'without_faces')]:
+        ipt = I.Interp(F, no_inline=[x['path'] for x in F.bodies if strip_generics(x['path']).endswith(('ConvexCell::with_faces', 'ConvexCell::discard_faces'))])
+        me = I.Sym(nf.sym_atom('vi'), tb['locals'][1]['ty'])
+        try:
+            out, _ = ipt.call_body(tb, [me])
+        except I.Diverge:
+            continue
+        ctx.evaluations += ipt.evaluations
+        bad = []
+        for f in ('anchor', 'width', 'dimensionality', 'periodic', 'cell_is_active'):
+            leafs = [lf for _c, lf in cases(out)] if isinstance(out, I.Ite) else [out]
+            for lf in leafs:
+                got = repr(I.frozen(I.get_field(lf, f))).replace('b:', '').replace(' ', '')
+                want = 'vi.' + f
+                if got != want and got != 'DVec3{x:%s.x,y:%s.y,z:%s.z}' % (want, want, want):
+                    bad.append('%s = %s' % (f, got[:50]))
+        nm_ = strip_generics(tb['path']).rsplit('::', 1)[-1]
+        ctx.check(rule, 'integrator-%s-keeps-configuration%s' % (nm_, sfx), not bad, '; '.join(bad)[:160] or 'anchor, width, dimensionality, periodic, cell_is_active carried over', 'every configuration field equals the field of the same name of the source', where(tb), key_extra='transition:' + nm_)
+    # the public accessors of the result report the stored fields
+    for acc in ('anchor', 'width', 'dimensionality', 'periodic'):
+        ab = F.body('voronoi::Voronoi::' + acc, required=False) or F.body_by_suffix('Voronoi::' + acc)
+        ipa = I.Interp(F)
+        vv = I.Sym(nf.sym_atom('self'), 'voronoi::Voronoi')
+        val, _ = ipa.call_body(ab, [ipa.ref_to(vv)])
+        ctx.evaluations += ipa.evaluations
+        got = repr(I.frozen(val)).replace('b:', '').replace(' ', '')
+        want = 'self.' + acc
+        ok = got == want or got == 'DVec3{x:%s.x,y:%s.y,z:%s.z}' % (want, want, want) or got.endswith('into(%s)' % want)
+        ctx.check(rule, 'accessor:%s%s' % (acc, sfx), ok, got[:80], 'the field `%s`' % acc, where(ab), key_extra='acc:' + acc)
     # faces: flatten(per-slot vectors) in both; cells: map over slots in both
     for nm, s in (('direct', sd), ('conversion', sc_)):
         ch, src = stream_chain(I.frozen(I.get_field(s, 'faces')))
